@@ -246,3 +246,9 @@ Definition ws_accept (rq : request) : option client :=
 Definition max_message_size : N := 10485760.
 Definition read_event (n : N) (mt : N) (size : N) (d : list N) : event :=
   if (max_message_size <? size)%N then Unregister n else Recv n mt d.
+
+(* relay.Relay (internal/relay/relay.go): the configured BufferSize is used as it is when it lies in
+   1..512; any other value (an unset 0, a negative, a too large one) is overridden with 256. This is
+   the capacity every connection of that relay gets. *)
+Definition effective_cap (configured : Z) : nat :=
+  if ((configured <? 1) || (512 <? configured))%Z then 256 else Z.to_nat configured.
